@@ -40,6 +40,16 @@ func main() {
 		cmdCheck(os.Args[2:])
 	case "inst":
 		cmdInst(os.Args[2:])
+	case "ematch":
+		data, err := os.ReadFile(os.Args[2])
+		if err != nil {
+			panic(err)
+		}
+		cases, n := ematchCases(string(data), 200, 6000, 6)
+		fmt.Fprintf(os.Stderr, "cases=%d instances=%d\n", len(cases), n)
+		for i, c := range cases {
+			os.WriteFile(fmt.Sprintf("%s.case%d.smt2", os.Args[3], i), []byte(c), 0o644)
+		}
 	case "intr":
 		cmdIntR(os.Args[2:])
 	default:
@@ -193,6 +203,27 @@ func (V *Verifier) verifyFunctions(fns []*ssa.Function, lemmas []*Lemma, opt sol
 	}
 	start := time.Now()
 	V.solveAll(res.Obls, opt)
+	retryUndecided := func(obls []*Obligation) {
+		// second pass: obligations left undecided (unknown / timeout, not sat) are tried again
+		// a few at a time, so that a hard query is not starved by its neighbours
+		var again []*Obligation
+		for _, o := range obls {
+			if o.Result != "unsat" && o.Result != "sat" && o.Result != "error" && !strings.Contains(o.Name, "[auto:") {
+				again = append(again, o)
+			}
+		}
+		if len(again) == 0 || len(again) > 24 {
+			return
+		}
+		for _, o := range again {
+			o.Result = ""
+			o.Retried = true
+		}
+		ropt := opt
+		ropt.workers = 3
+		V.solveAll(again, ropt)
+	}
+	retryUndecided(res.Obls)
 	copt := opt
 	if copt.timeout > 3*time.Second {
 		copt.timeout = 3 * time.Second
@@ -249,6 +280,7 @@ func (V *Verifier) verifyFunctions(fns []*ssa.Function, lemmas []*Lemma, opt sol
 			}
 		}
 		V.solveAll(again, opt)
+		retryUndecided(again)
 		res.Obls = append(res.Obls, again...)
 	}
 	res.SolverTime = time.Since(start)
